@@ -30,7 +30,7 @@ cp $demo /verif/seeded/$name/
 cp $out/notes.md /verif/seeded/$name/notes.md 2>/dev/null
 # run my check against it
 git -C /repo apply $out/patch.diff
-/verif/check $prop quick > /tmp/seedcheck-$name.check.log 2>&1; chk=$?
+/verif/bin/govc check --property $prop --tier quick --verif /verif --no-evidence > /tmp/seedcheck-$name.check.log 2>&1; chk=$?
 git -C /repo checkout -- .
 viol=$(grep -c '^VIOLATION' /tmp/seedcheck-$name.check.log)
 confirmed=$(grep '^VIOLATION' /tmp/seedcheck-$name.check.log | grep -vc 'no-failing-input-found')
